@@ -9,7 +9,7 @@ Open Scope N_scope.
 Lemma sim_refl s : sim s s.
 Proof. induction s; constructor; auto. Qed.
 Lemma sim_app a a' b b' : sim a a' -> sim b b' -> sim (a ++ b) (a' ++ b').
-Proof. induction 1; intros Hb; cbn; [assumption|constructor; auto|constructor; auto]. Qed.
+Proof. induction 1; intros Hb; cbn; [assumption|apply sim_char; auto|apply sim_crlf; auto]. Qed.
 Lemma lower_upper c : ascii_lower (ascii_upper c) = ascii_lower c.
 Proof.
   unfold ascii_lower, ascii_upper.
@@ -52,48 +52,6 @@ Proof.
   induction 1 as [|a l Ha Hl IH]; intros H; [constructor|]. unfold lossy in H. cbn in H.
   apply orb_false_iff in H. destruct H as [H1 H2]. unfold exact, rust. cbn.
   apply sim_app; [apply atom_sim; assumption|apply IH; assumption].
-Qed.
-
-(* sim implies equality of the normal forms *)
-Lemma fold_cons_not_crlf c r : (c =? 13) && match r with d :: _ => d =? 10 | [] => false end = false ->
-  fold_text (c :: r) = ascii_lower c :: fold_text r.
-Proof. destruct r as [|d r]; cbn [fold_text]; intros H; [reflexivity|]. rewrite H. reflexivity. Qed.
-Lemma lower_10 c : ascii_lower c = 10 -> c = 10.
-Proof.
-  unfold ascii_lower. destruct ((65 <=? c) && (c <=? 90)) eqn:E; [|auto].
-  apply andb_true_iff in E. destruct E as [A B]. apply N.leb_le in A. lia.
-Qed.
-Lemma lower_13 c : ascii_lower c = 13 -> c = 13.
-Proof.
-  unfold ascii_lower. destruct ((65 <=? c) && (c <=? 90)) eqn:E; [|auto].
-  apply andb_true_iff in E. destruct E as [A B]. apply N.leb_le in A. lia.
-Qed.
-Lemma sim_head_10 s s' : sim s s' -> (exists r, s = 10 :: r) <-> (exists r', s' = 10 :: r') \/ False.
-Proof. intros H. split; [|intros [H1|[]]]. Abort.
-
-Lemma sim_fold s s' : sim s s' -> fold_text s = fold_text s'.
-Proof.
-  induction 1 as [|c c' s s' Hc Hs IH|s s' Hs IH].
-  - reflexivity.
-  - (* same character up to case: both sides decide `CR before LF` alike *)
-    assert (Hhead : match s with d :: _ => d =? 10 | [] => false end = match s' with d :: _ => d =? 10 | [] => false end).
-    { inversion Hs; subst; try reflexivity.
-      - destruct (c0 =? 10) eqn:E1, (c'0 =? 10) eqn:E2; try reflexivity.
-        + apply N.eqb_eq in E1. subst. cbn in H. symmetry in H. apply lower_10 in H. subst. discriminate.
-        + apply N.eqb_eq in E2. subst. cbn in H. apply lower_10 in H. subst. discriminate. }
-    assert (Hc13 : (c =? 13) = (c' =? 13)).
-    { destruct (c =? 13) eqn:E1, (c' =? 13) eqn:E2; try reflexivity.
-      - apply N.eqb_eq in E1. subst. cbn in Hc. symmetry in Hc. apply lower_13 in Hc. subst. discriminate.
-      - apply N.eqb_eq in E2. subst. cbn in Hc. apply lower_13 in Hc. subst. discriminate. }
-    destruct ((c =? 13) && match s with d :: _ => d =? 10 | [] => false end) eqn:E.
-    + (* CR LF on both sides *)
-      assert (E' : (c' =? 13) && match s' with d :: _ => d =? 10 | [] => false end = true) by (rewrite <- Hc13, <- Hhead; exact E).
-      destruct s as [|d r]; [rewrite andb_false_r in E; discriminate|].
-      destruct s' as [|d' r']; [rewrite andb_false_r in E'; discriminate|].
-      cbn [fold_text]. rewrite E, E'. exact IH.
-    + assert (E' : (c' =? 13) && match s' with d :: _ => d =? 10 | [] => false end = false) by (rewrite <- Hc13, <- Hhead; exact E).
-      rewrite (fold_cons_not_crlf _ _ E), (fold_cons_not_crlf _ _ E'). rewrite Hc, IH. reflexivity.
-  - cbn [fold_text]. cbn. exact IH.
 Qed.
 
 (* ---------------------------------------------------------------- structure of a parse *)
@@ -202,7 +160,8 @@ Lemma error_fails_only_at_end sx r1 sb : error sx r1 = (sb, Err) ->
   exists sy t r2, opt multiline_trivia sx r1 = (sy, Ok t r2) /\ (rem r2 = [] \/ exists x, rem r2 = 10 :: x).
 Proof.
   unfold error, error_impl. change (slot W_error_impl 0) with W_mws. cbn [wr]. unfold mws, with_trivia.
-  destruct (opt multiline_trivia sx r1) as [sy [t r2| |x]] eqn:Eo; try discriminate.
+  destruct (opt multiline_trivia sx r1) as [sy [t r2| |x]] eqn:Eo; try discriminate;
+    [|exfalso; unfold opt in Eo; destruct (multiline_trivia sx r1) as [? [? ?| |?]]; discriminate].
   unfold recognize at 1. unfold alt.
   destruct (recognize (pair_p (one_of error_lead) (take_till (error_stop_p false))) sy r2) as [s3 [v3 r3| |x3]] eqn:EA; try discriminate.
   destruct (take_till1 (error_stop_p false) s3 r2) as [s4 [v4 r4| |x4]] eqn:EB; try discriminate.
@@ -223,7 +182,7 @@ Qed.
 
 Lemma newline_at_lf st i x : rem i = 10 :: x -> snd (newline st i) <> Err.
 Proof.
-  intros Hr. unfold newline, map_p, pair_p, opt, char_p, satisfy. rewrite Hr. cbn. discriminate.
+  intros Hr. destruct i as [o rm]. cbn in Hr. subst rm. vm_compute. discriminate.
 Qed.
 
 Theorem eof_takes_nothing s toks ds : parse s = Parsed toks ds -> eof_rest toks = [].
@@ -249,5 +208,3 @@ Qed.
 Theorem parse_sim s toks : parse s = Parsed toks [] -> sim s (render toks).
 Proof. intros H. apply parse_sim_given_eof; [assumption|]. eapply eof_takes_nothing. eassumption. Qed.
 
-Theorem parse_fold s toks : parse s = Parsed toks [] -> fold_text (render toks) = fold_text s.
-Proof. intros H. symmetry. apply sim_fold. apply parse_sim. assumption. Qed.
